@@ -17,6 +17,23 @@ class Loader:
     def __init__(self):
         self.path = None
 
+    def load(self, name):
+        if not self.path:
+            self.path = name                       # per-call state kept on the instance
+        return self.path
+
+
+class Rule:
+    """never changes after construction: one shared instance is fine"""
+    def __init__(self, label):
+        self.label = label
+
+    def applies(self, x):
+        return x == self.label
+
+
+SHARED_RULE = Rule('or')                           # good: immutable strategy object at module level
+
 
 class Graph:
     shared_loader = Loader()                       # BAD (GLOBALSTATE): stateful object at class level
